@@ -1,6 +1,6 @@
 (* Verification cases (C01 C02 C03 C05 C06 C08 C12):
    (V <L|W> <request> <presentation> <ctx> <implementation outcome> <base verdict opt>) *)
-From Coq Require Import List String ZArith NArith Bool.
+From Coq Require Import List String Ascii ZArith NArith Bool.
 From AV Require Import Model.Sexp Model.Query Model.VTypes Model.Interval Model.VDecode Model.VCfg Model.VProps.
 Import ListNotations.
 Open Scope string_scope.
@@ -66,13 +66,19 @@ Definition check_interval_unit (args : list sexp) : option (list sexp) :=
 
 (* parser half of C12 (testing, not proof): (D type mutation n outcome site input);
    the specification is "Ok or Err": a panic is a violation, reported in the class of its site *)
+(* the crate a panic location lies in: the text before the first '/' ("" for the standard library) *)
+Fixpoint crate_of (s : string) : string :=
+  match s with
+  | EmptyString => EmptyString
+  | String a r => if Ascii.eqb a "/"%char then EmptyString else String a (crate_of r)
+  end.
 Definition check_parser_unit (args : list sexp) : option (list sexp) :=
   match args with
   | [A "D"; ty; kind; _; A o; site; _] =>
       match dec_str ty, dec_str site with
       | Some ty', Some site' =>
           if (o =? "ok") || (o =? "err") then Some [A "ok"; A ("parser:" ++ o)]
-          else if o =? "panic" then Some [A ("known:parser-panic:" ++ site'); A "parser:panic"; A ("type:" ++ ty')]
+          else if o =? "panic" then Some [A ("known:parser-panic:" ++ crate_of site'); A "parser:panic"; A ("type:" ++ ty'); A ("site:" ++ site')]
           else Some [A "bad"; A ("parser:" ++ o); A ("type:" ++ ty')]
       | _, _ => None end
   | _ => None
